@@ -21,6 +21,20 @@ CLAIMED = {
         "DESIGN.md §5 C05"),
 }
 
+CLAIMED["C04"] = (
+    "Lean 4 theorems over a line-by-line model of TraitListObject (the length guard of every override + TraitList) and of "
+    "List.validate: the guards compute the exact resulting length for every index/slice (C04_len_exact), the invariant "
+    "'all elements are validator outputs and minlen <= len <= maxlen' is preserved by every mutator and established by "
+    "whole-value assignment, for every validator, bound and history (induction); a rejected operation is TraitError and "
+    "leaves the state; every length-changing mutator is guarded (decide over the translated method tables). Tied to the "
+    "source by correspondence on real HasTraits objects; nested List(List), Dict(K, List), Set, Dict traits are covered "
+    "by the statement-level oracle stream and by the Dict/Set invariants of C06/C07.",
+    "Trusted: Lean kernel, standard axioms only; Py.List model; harness; inner traits are abstract validators in the "
+    "theorems (their own correctness is C01/C03). Nested containers: invariant proved per level, composition by the "
+    "validator hypothesis; the nested stream is oracle-checked, not model-checked.",
+    "Lean 4 proof (invariant by induction over operations) with model-code correspondence check",
+    "DESIGN.md §5 C04")
+
 NOT_YET = "check not built yet in this round (planned in DESIGN.md §9); not claimed until it exists"
 
 
